@@ -1271,6 +1271,10 @@ class Exec(object):
     def index_conc(self, st, base, idx, node):
         ctx = self.ctx
         o = base.z
+        if idx.k == "optint":
+            # an optional integer used as an index: it must not be None here (TypeError / KeyError otherwise)
+            ctx.oblige(st, z3.Not(idx.z[0]), "not-none", node, "index into a constant table is not None")
+            idx = mk_int(idx.z[1])
         if idx.k == "conc":
             try:
                 return mk_conc(o[idx.z])
